@@ -128,7 +128,7 @@ def main():
         "engines": [{"name": e, "path": "engine/src", "serves_properties": sorted(p), "kind_free_text": kinds.get(e, "")} for e, p in sorted(engines.items())],
         "checks": checks,
         "notes": "All checks explore the real crate built from /repo (no abstract model). Exit 0 held / 1 VIOLATION / 2 machinery failure. Known findings: KNOWN_FINDINGS.txt.",
-        "not_applicable": [{"property_id": k, "reason": v} for k, v in sorted(NOT_YET.items()) if k not in CHECKS],
+        "not_applicable": [{"property_id": k, "reason": v} for k, v in sorted(NOT_YET.items()) if k not in CHECKS and not k.startswith("_")],
     }
     json.dump(m, open("/verif/MANIFEST.json", "w"), indent=1)
     print("wrote MANIFEST.json with", len(checks), "checks")
